@@ -2,6 +2,7 @@
 import TRV.Props.C03
 import TRV.Props.C07
 import TRV.Props.C12
+import TRV.Props.C14
 import TRV.Props.C15
 import TRV.Props.C16
 import TRV.Props.C17
